@@ -79,6 +79,10 @@ func goType(t TypeInfo) (reflect.Type, error) {
 		if err != nil {
 			return nil, err
 		}
+		if !keyType.Comparable() {
+			// reflect.MapOf panics on such a key (blob, collection, tuple and UDT keys)
+			return nil, fmt.Errorf("cannot create Go type for CQL type %s: a Go map cannot be keyed by %s", t, keyType)
+		}
 		valueType, err := goType(t.(CollectionType).Elem)
 		if err != nil {
 			return nil, err
